@@ -137,7 +137,11 @@ func sortSearch(x *Exec, fr *Frame, st *State, site ssa.Instruction, c *ssa.Call
 func bitsLeadingZeros(w int) libHandler {
 	return func(x *Exec, fr *Frame, st *State, site ssa.Instruction, c *ssa.CallCommon, args []Val, rt types.Type) Val {
 		if x.mode != ModeBV {
-			panic(toolErr("bits.LeadingZeros needs mode bv"))
+			// integer mode has no bit-level model: the count is an arbitrary value in [0,w]
+			x.assumed["bits.LeadingZeros in int mode abstracted to an arbitrary value in its range"] = true
+			r := x.freshResult(fr, st, "lz", rt)
+			x.assumeUnder(st.Guard, mkAnd(x.iLe(x.S.IdxLit(0), r.T), x.iLe(r.T, x.S.IdxLit(int64(w)))))
+			return r
 		}
 		a := args[0].T
 		// nested ite from the top bit down
